@@ -816,10 +816,13 @@ def s4_list_int(ctx):
 
 # ---------------------------------------------------------------------------------------------- P1 H1
 def p1_getitem(ctx):
-    from obligations.C02 import RI, state0
+    from obligations.C02 import RI, state0, entry_representation
     repo = ctx.repo
     cls = repo.cls(TR, 'BaseEphysReader')
     gi = repo.lookup_method(cls, '__getitem__')
+    rep_ = entry_representation(repo)
+    if rep_ != 'tuple':
+        ctx.undecided('C01.P1', gi, 'a pending op is recorded as `%s`, not as the (name, argument) pair the replay walk models' % rep_)
     me = T('self')
     heap, ref0, old = state0(me, symbolic=False)
     item = T('rowitem')
@@ -827,7 +830,7 @@ def p1_getitem(ctx):
     facts = {('truth', T('call', 'isinstance', C(0), item, T('name', 'tuple'))): False}
     for a in (T('a0'), T('a1')):
         facts[('is',) + tuple(sorted([C(None), a], key=repr))] = False
-    outs = I.run(gi, env={gi.params[0]: me, gi.params[1]: item}, heap=heap, facts=facts)
+    outs = I.run(gi, env={gi.params[0]: me, gi.params[1]: item}, heap=heap, facts=facts) if rep_ == 'tuple' else []
     ctx.analysed['paths'] += len(outs)
     probs = []
     n = 0
@@ -866,7 +869,7 @@ def p1_getitem(ctx):
             ctx.violated('C01.P1', gi, pmsg[:150], pmsg)
     elif n:
         ctx.holds('C01.P1', gi, 'reader[item] = replay of the deferred ops over vstack of _get_part(p, s) for (p, s) in _get_subitems(self.part_bounds, item), in order (%d paths)' % n, '__getitem__')
-    else:
+    elif rep_ == 'tuple':
         ctx.undecided('C01.P1', gi, 'no data path found')
     # H1 (F01)
     found = False
